@@ -11,7 +11,12 @@ from props.C04 import collect, independent_product
 
 ID = "C17"
 TRUSTED = ["argparse, the OS pipe, codecs file writing", "in-process reference stream = real PcfgQueue over the Prince folder + create_guesses",
-           "second tie (translator): harness/translate_expand.py (ast -> Gallina, fail closed; accepted subset and what it does not model in its docstring) and the meaning coq/theories/ExpandRt.v gives to Python subscripts, slices, `if limit:` and str methods; print_guess, MarkovCracker, int() and str.upper() of one character are parameters of the generated functions"]
+           "second tie (translator): harness/translate_expand.py (ast -> Gallina, fail closed; accepted subset and what it does not model in its docstring) and the meaning coq/theories/ExpandRt.v gives to Python subscripts, slices, `if limit:` and str methods; print_guess, MarkovCracker, int() and str.upper() of one character are parameters of the generated functions",
+           "translator tie of the wordlist loop: harness/translate_session.py (ast -> Gallina, fail closed; accepted subset and what it does "
+           "not model in its docstring) and the meaning coq/theories/SessionRt.v gives to `while`, break, try/except OSError and "
+           "`x is None`; the queue (next) and create_guesses are operations on an abstract world, specified by queue_contract / "
+           "create_guesses_contract in C17_source_create_prince_wordlist_is_model (create_guesses's contract is what "
+           "C17_source_size_inside_preterminal proves of the translated create_guesses)"]
 ASSUMES = ["N >= 1"]
 
 
@@ -237,6 +242,9 @@ def run(ctx):
     corr.append(expand_tie.obligation())
     import kernel_tie
     corr.append(kernel_tie.obligation())
+    # translator tie of the wordlist loop itself (create_prince_wordlist = Session.prince)
+    import session_tie
+    corr.append(session_tie.obligation("prince"))
     return {"evaluations": dist["cli_runs"], "distinct_nontrivial": nontrivial, "rule": rule, "samples": samples,
             "corr": corr, "violations": vio, "dist": dist}
 
